@@ -39,6 +39,8 @@ def run(model, rep, tier):
     tsrules.no_stop_without_flag(ctx, rep, 'C04.R9')
     r11_totals_line(ctx, rep)
     r16_exception_values_classified_by_base(ctx, rep)
+    from . import robust
+    robust.argument_roles_agree(ctx, rep, 'C04.R17')
     r12_nullable_results(ctx, rep)
     r13_user_exceptions_not_hashed(ctx, rep)
     r14_no_user_text_as_format_string(ctx, rep)
